@@ -797,7 +797,9 @@ func runMakeLeave(r *harness.Run, c mlCase) (bool, error) {
 type pjCase struct {
 	Version  string
 	MakeJoin string // ok | error | unknown-version
-	SendJoin string // ok | error | no-create | create-unknown-version | create-only-in-state | bad-signatures | join-not-allowed | echo-foreign-join
+	SendJoin string // ok | error | no-create | create-unknown-version | create-only-in-state | bad-signatures | join-not-allowed | echo-foreign-join | invited-in-state | invited-only-in-auth-chain
+	// MembersOmitted: the send_join response says it left member events out of the state (partial-state join)
+	MembersOmitted bool `json:",omitempty"`
 }
 
 type joinClient struct {
@@ -818,13 +820,14 @@ func (m mjResp) GetRoomVersion() gmsl.RoomVersion { return m.ver }
 type sjResp struct {
 	auth, state gmsl.EventJSONs
 	join        spec.RawJSON
+	omitted     bool
 }
 
 func (s sjResp) GetAuthEvents() gmsl.EventJSONs  { return s.auth }
 func (s sjResp) GetStateEvents() gmsl.EventJSONs { return s.state }
 func (s sjResp) GetOrigin() spec.ServerName      { return "a.org" }
 func (s sjResp) GetJoinEvent() spec.RawJSON      { return s.join }
-func (s sjResp) GetMembersOmitted() bool         { return false }
+func (s sjResp) GetMembersOmitted() bool         { return s.omitted }
 func (s sjResp) GetServersInRoom() []string      { return nil }
 
 func (j *joinClient) MakeJoin(ctx context.Context, origin, s spec.ServerName, roomID, userID string) (gmsl.MakeJoinResponse, error) {
@@ -838,7 +841,7 @@ func (j *joinClient) MakeJoin(ctx context.Context, origin, s spec.ServerName, ro
 	var auth, prev []string
 	for _, rr := range j.order {
 		k := rr.E.Key()
-		if k == "m.room.create\x00" || k == "m.room.power_levels\x00" || k == "m.room.join_rules\x00" {
+		if k == "m.room.create\x00" || k == "m.room.power_levels\x00" || k == "m.room.join_rules\x00" || k == "m.room.member\x00"+userID {
 			auth = append(auth, rr.ID)
 		}
 	}
@@ -852,10 +855,17 @@ func (j *joinClient) SendJoin(ctx context.Context, origin, s spec.ServerName, ev
 		return nil, errors.New("scripted")
 	}
 	var out sjResp
+	out.omitted = j.c.MembersOmitted
 	for _, rr := range j.order {
 		isCreate := rr.E.Type == "m.room.create"
 		js := spec.RawJSON(rr.JSON)
 		switch j.c.SendJoin {
+		case "invited-only-in-auth-chain":
+			// the invite the join relies on is part of the auth chain but not of the state the remote returns
+			if rr.E.Key() == "m.room.member\x00"+srgen.Dave {
+				out.auth = append(out.auth, js)
+				continue
+			}
 		case "no-create":
 			if isCreate {
 				continue
@@ -887,6 +897,10 @@ func runPerformJoin(r *harness.Run, c pjCase) (bool, error) {
 	case "join-not-allowed":
 		// the room became invite-only (and dave is not invited)
 		st, tip, _ = h.Branch(st, tip, []srgen.Action{{Name: "jr-invite", Type: "m.room.join_rules", SK: "", Sender: srgen.Alice, Content: `{"join_rule":"invite"}`}})
+	case "invited-in-state", "invited-only-in-auth-chain":
+		// invite-only room, dave invited: the join stands or falls with the invite
+		st, tip, _ = h.Branch(st, tip, []srgen.Action{{Name: "jr-invite", Type: "m.room.join_rules", SK: "", Sender: srgen.Alice, Content: `{"join_rule":"invite"}`},
+			{Name: "alice-invites-dave", Type: "m.room.member", SK: srgen.Dave, Sender: srgen.Alice, Content: `{"membership":"invite"}`}})
 	}
 	_ = st
 	real, order, err := fedgen.Materialise(h, opts)
@@ -929,7 +943,7 @@ func runPerformJoin(r *harness.Run, c pjCase) (bool, error) {
 		why = append(why, "make_join "+c.MakeJoin)
 	}
 	switch c.SendJoin {
-	case "error", "no-create", "create-unknown-version", "create-only-in-state", "join-not-allowed":
+	case "error", "no-create", "create-unknown-version", "create-only-in-state", "join-not-allowed", "invited-only-in-auth-chain":
 		why = append(why, "send_join response: "+c.SendJoin)
 	case "bad-signatures":
 		why = append(why, "no state event carries a valid signature")
@@ -966,7 +980,7 @@ func canon(v interface{}) []byte { return evgen.CanonOf(v) }
 func main() { harness.Main("C15", "fault_enumeration", run) }
 
 func run(r *harness.Run) {
-	r.Rule("full products of parameter alphabets: make_join (remote version list x origin x local residency x join rule x pending invite x allowed-room residency x authoriser candidates x power-levels presence x 6 template-builder outcomes; versions 6, 8, 10, 12 quick / 1-12 thorough; the other handlers versions 1, 10, 12 quick / 1-12 thorough), make_leave (origin x residency x 6 template outcomes), send_join (membership x state key x room / event ID match x origin x signature state (valid, absent, wrong key, valid plus a forged signature under the local server's own name and key ID) x current membership x authorised-via x querier error), invite (event kind x target x room match x signature x known room x current membership x stripped state source x room-querier error), PerformJoin over a scripted remote (make_join x send_join outcomes). Oracle: guard soundness - every ACCEPTED request satisfies all listed conditions, and the returned event is the unmodified event with a valid local signature; vacuity guard: each handler must accept some cell. Non-trivial = distinct accepted cell + distinct refused cell with exactly one condition broken.")
+	r.Rule("full products of parameter alphabets: make_join (remote version list x origin x local residency x join rule x pending invite x allowed-room residency x authoriser candidates x power-levels presence x 6 template-builder outcomes; versions 6, 8, 10, 12 quick / 1-12 thorough; the other handlers versions 1, 10, 12 quick / 1-12 thorough), make_leave (origin x residency x 6 template outcomes), send_join (membership x state key x room / event ID match x origin x signature state (valid, absent, wrong key, valid plus a forged signature under the local server's own name and key ID) x current membership x authorised-via x querier error), invite (event kind x target x room match x signature x known room x current membership x stripped state source x room-querier error), PerformJoin over a scripted remote (make_join x send_join outcomes incl. an invite-only room whose invite is in the returned state / only in the auth chain x the members_omitted flag). Oracle: guard soundness - every ACCEPTED request satisfies all listed conditions, and the returned event is the unmodified event with a valid local signature; vacuity guard: each handler must accept some cell. Non-trivial = distinct accepted cell + distinct refused cell with exactly one condition broken.")
 	r.Assume("Allowed / VerifyJSON are sub-oracles (C07, C02)", "completeness (every well-formed request is accepted) is checked only as the vacuity guard")
 	replay := func(kind string, raw json.RawMessage) error {
 		var err error
@@ -1172,8 +1186,8 @@ func run(r *harness.Run) {
 	var pj []pjCase
 	for _, v := range vers {
 		for _, m := range []string{"ok", "error", "unknown-version"} {
-			for _, s := range []string{"ok", "error", "no-create", "create-unknown-version", "create-only-in-state", "bad-signatures", "join-not-allowed"} {
-				pj = append(pj, pjCase{v, m, s})
+			for _, s := range []string{"ok", "error", "no-create", "create-unknown-version", "create-only-in-state", "bad-signatures", "join-not-allowed", "invited-in-state", "invited-only-in-auth-chain"} {
+				pj = append(pj, pjCase{Version: v, MakeJoin: m, SendJoin: s}, pjCase{Version: v, MakeJoin: m, SendJoin: s, MembersOmitted: true})
 			}
 		}
 	}
